@@ -196,7 +196,9 @@ def run_history(ops):
             except Exception as e:
                 ev["raised"] = True
                 ev["out"] = "raise:" + type(e).__name__
-            ref = pristine(terms[op["set"]])["writes"][key]
+            # (a set the live objects could build and fresh ones cannot has no reference output: the read
+            # event already says so, and every write of it differs from "absent")
+            ref = pristine(terms[op["set"]])["writes"].get(key, {"out": "absent", "raised": True})
             ev["pristine"] = ref["out"]
             ev["pristine_raised"] = ref["raised"]
             ev["dumps"] = dumps()
